@@ -4,7 +4,7 @@
 # check runs from a scratch copy of /verif whose harness depends on that worktree.
 set -u
 prop=$1; patch=$(readlink -f $2); tier=${3:-quick}
-M=/tmp/mut
+M=${MUTDIR:-/tmp/mut}
 mkdir -p $M
 [ -d $M/repo ] || git -C /repo worktree add -q --detach $M/repo HEAD
 cd $M/repo && git checkout -q --detach $(git -C /repo rev-parse HEAD) && git checkout -q -- . && git clean -qfd
